@@ -217,7 +217,9 @@ def check_property(prop, tier, seed, jobs=12):
                 known_hits[kf["id"]] = kf
                 undischarged.append({"name": o["name"], "reason": f"{o['status']}: isolates known finding {kf['id']} (known_findings.txt)"})
                 continue
-            was_proved = baseline.get(r["task"], {}).get(o["name"]) == "proved"
+            # the baseline rule is about solver answers; an `unknown` of a frame analysis is its explicit "this shape
+            # of code is not recognised syntactically" verdict and stays undecided
+            was_proved = baseline.get(r["task"], {}).get(o["name"]) == "proved" and o.get("backend") != "frames"
             if o["status"] == "refuted" or (o["status"] == "unknown" and was_proved):
                 rp = replay_pyvc(r, o) if o["status"] == "refuted" else {"reproduced": False, "note": "solver returned unknown for an obligation that is proved on the unchanged tree"}
                 path = os.path.join(REPLAY, f"{prop}-{slug(o['name'])}.json")
@@ -437,7 +439,7 @@ def proof_tier_only():
             if any(match_known(known, p, {"obligation": o["name"], "features": {"tier": "P"}}) for p in r.get("props", [])):
                 n_known += 1  # an obligation that isolates a known finding
                 continue
-            was = baseline.get(r["task"], {}).get(o["name"]) == "proved"
+            was = baseline.get(r["task"], {}).get(o["name"]) == "proved" and o.get("backend") != "frames"
             if o["status"] == "refuted" or was:
                 alarms.append(f"{o['status']:8s} {r['task']} :: {o['name']} (line {o.get('lineno')})")
             else:
